@@ -129,6 +129,35 @@ CHECKS["C08"] = dict(level="model_checking", design="5 C08", note=_PANEL_NOTE + 
          "B-coupled laminate, prime-valued edge flags) against the exact gradient/Hessian within 2^-34 of the term-magnitude bound; "
          "caller arrays are recorded unmodified. Assembly-level addition of connection forces: see C13.")
 
+CHECKS["C13"] = dict(level="model_checking", design="5 C13", note=_PANEL_NOTE + " Stiffener internals other than the 1-D blade "
+    "flange mass are not re-derived: for stiffened bays the component stand-alone matrix is the component's own output and the "
+    "specification decides where it must land; the PSD clause of stiffener contributions is an observed smallest eigenvalue.",
+    technique="TLA+ module Assembly (placement algebra: segments, running offsets of PanelAssembly and StiffPanelBay, global "
+              "matrix/vector = sum of placed components + connection matrices) on top of PanelOps/PanelNL/ConnectionOps; TLC "
+              "invariants: ranges partition 1..Size, size = sum, symmetric, non-negative probes, skin-partition independence; "
+              "TLC-enumerated assemblies and bays replayed on real PanelAssembly / StiffPanelBay objects, every entry judged by "
+              "TLC trace validation (exact for assemblies and stiffener-less bays, placement-of-observed-components for stiffened bays)",
+    text="Assemblies of 1..6 unequal panels in any order with SSycte/SSxcte/BFycte/SB connections: get_size, calc_k0, calc_kG0, "
+         "calc_kM, calc_fext, calc_kT and calc_fint are decided entry by entry against the exact placed sums; bays whose skin is "
+         "cut at 0..4 arbitrary positions (flat and curved) are decided against the uncut skin (partition independence is a TLC "
+         "invariant); for bays with 0..2 stiffeners of each kind the code's own component matrices are placed by the "
+         "specification's placement map and must add up to the assembled matrix; the indefinite BladeStiff1D flange mass is the "
+         "named deviation KF_C13_Blade1DMassCouplingDoubled (known finding, .pyx).")
+CHECKS["C20"] = dict(level="model_checking", design="5 C20",
+    note="Trusted: hand-transcribed step scripts of each public method (bounded by the run-time attribute recorder: a mismatch "
+         "degrades to exhaustive concrete call sequences of length <= 3 and is recorded as drift, never as a violation); ARPACK "
+         "results compared on eigenvalues at solver precision; exception identity = type + first 40 characters of the message.",
+    technique="TLA+ module Lifecycle (def-use state machine of lazily derived attributes for 12 object kinds, one step script per "
+              "public method) with invariants NoFailure / HistoryIndependent / CacheCoherent / Idempotent; FieldChunks and "
+              "IntegratePartition model the OpenMP chunking; every (abstract state, method) edge TLC finds is replayed on real "
+              "objects: results must be bit-identical to a fresh object's and to their own repetition, caller arrays unchanged, "
+              "thread counts 1..16 bit-identical; verdicts by TLC trace validation",
+    text="History independence is decided by replaying every edge of the abstract state graph (and sampled longer trajectories) "
+         "on Panel (3 models), PanelAssembly, StiffPanelBay (6 variants) and ConeCyl (cylinder, cone) objects; first-call "
+         "failures of today's code are TLC counterexamples of NoFailure and are listed one by one as named deviations (17 known "
+         "findings, each a (kind, method, attribute) signature); padding/partition of the threaded kernels is model-checked for "
+         "all sizes <= 40 (<= 60 points) and thread counts <= 16 and observed bit-identical on the real kernels.")
+
 NOT_YET = {}
 
 NA = {
